@@ -136,7 +136,9 @@ fn gen(rng: &mut Rng, ext: &str) -> DocD {
                 _ => {}
             }
             let (fg, bg) = match ext {
-                "asc" => (7, 0),
+                // the ASCII format drops the colours, but the buffer that is saved has them (a blank on a coloured
+                // background is content of its row)
+                "asc" if !small => (7, 0),
                 "ata" => {
                     if rng.chance(1, 4) {
                         (0, 7)
@@ -202,7 +204,7 @@ impl Prop for C15 {
         "C15"
     }
     fn rule(&self) -> &'static str {
-        "single-layer buffers of width 80 (40 for ATASCII) and height 1..=40 whose last row is not empty, over printable CP437 (0x20..=0x7E, 0x80..=0xFE; ATASCII 0x20..=0x7C) minus each format's lead-in characters, with attribute sequences over fg 0..=15 x bg 0..=7 (keep / change fg / change bg / both), rows of every length 0..=width incl. full-width rows, all three screen preparations, are written with the real writer and parsed back with the real loader; every cell up to the end of its row is compared: character (NUL = blank), and for Avatar/PCBoard/Ctrl-A/Renegade the displayed foreground and background RGB, for ATASCII inverse video. distinct_nontrivial = distinct (format, height, preparation, leading cells) documents"
+        "single-layer buffers of width 80 (40 for ATASCII) and height 1..=40 whose last row is not empty, over printable CP437 (0x20..=0x7E, 0x80..=0xFE; ATASCII 0x20..=0x7C) minus each format's lead-in characters, with attribute sequences over fg 0..=15 x bg 0..=7 (keep / change fg / change bg / both), rows of every length 0..=width incl. full-width rows, all three screen preparations, are written with the real writer and parsed back with the real loader; every cell up to the end of its row is compared: character (NUL = blank), and for Avatar/PCBoard/Ctrl-A/Renegade the displayed foreground and background RGB, for ATASCII inverse video; a third of the ASCII documents carry colours as well (only their characters are compared). distinct_nontrivial = distinct (format, height, preparation, leading cells) documents"
     }
     fn meta(&self, ctx: &Ctx) -> Value {
         json!({"floor_evaluations": 3000, "floor_distinct": ctx.tier.pick(2500u64, 30000u64),
